@@ -14,6 +14,7 @@ KIND_PROPS = {
     "rmul": {"C04", "C05", "C06", "C08"},
     "fill": {"C01", "C02", "C05", "C06", "C16"},
     "fill-rollback": {"C12"},
+    "copy": {"C06", "C04"},
     "eq": {"C06", "C09"},
     "ne": {"C06", "C09"},
 }
@@ -34,6 +35,10 @@ def method_tasks(prop):
             if kind == "fill-rollback" and K not in SINGLE_PATH:
                 continue
             out.append(("method", K, kind))
+    if prop == "C06":
+        # copy() of a reloaded container (ed / fromJson built) is a fresh object too
+        for K in CLASSES:
+            out.append(("method", K, "copy", "reloaded"))
     if prop == "C16":
         # the representation invariant the cross-reference walk relies on (the skipped template is not a
         # fillable slot) is established by every producer of the three classes that keep a template
@@ -45,7 +50,7 @@ def method_tasks(prop):
         # "the reloaded container is interchangeable with the original under +, *, zero(), copy()":
         # the same interface clauses on pre-states built the way ed / fromJsonFragment build them
         for K in CLASSES:
-            for kind in ("zero", "add", "iadd", "mul"):
+            for kind in ("zero", "add", "iadd", "mul", "copy"):
                 out.append(("method", K, kind, "reloaded"))
     return out
 
@@ -63,6 +68,8 @@ def run_method_task(P, K, kind, mode="live"):
         return [C.ob_mul(P, K, "__mul__", mode=mode)]
     if kind == "rmul":
         return [C.ob_mul(P, K, "__rmul__")]
+    if kind == "copy":
+        return [C.ob_copy(P, K, mode=mode)]
     if kind == "fill":
         return [C.ob_fill(P, K)]
     if kind == "fill-rollback":
